@@ -1,6 +1,7 @@
 import Dnp3.Driver.Util
 import Dnp3.Model.AppHeader
 import Dnp3.Model.ObjectIter
+import Dnp3.Model.RequestBuilder
 /-! engine `parse` (C09): `parse <req|resp> <hex> [z]` -/
 namespace Dnp3.Driver
 open Dnp3.App Dnp3.Gen
@@ -118,12 +119,12 @@ def parseOp (resp : Bool) (bs : List Nat) (zls : Bool) : List String :=
       [app, valid, s!"objerr {parseErrStr e}", disp, "ok"]
 
 /-! `build`: the master's request builders (`HeaderWriter`, `ReadRequest`, `CommandBuilder` → `write_prefixed_items`,
-`write_count_of_one`, `write_clear_restart`) as images of header records, with the write cursor's capacity -/
+`write_count_of_one`, `write_clear_restart`) as images of header records, with the write cursor's capacity.
+No builder operation panics (before the repair of D17 `write_prefixed_items` did, on the 256th item of a one-octet count). -/
 
 inductive BuildRes
   | bytes (b : List Nat)
   | badwrite
-  | panic
   | badspec
 
 /-- one header token appended to what is already written -/
@@ -150,20 +151,14 @@ def buildHdr (cap : Nat) (acc : List Nat) (tok : String) : BuildRes :=
       else if k == "cmd8" || k == "cmd16" then
         match parseHexFast x with
         | none => .badspec
-        | some items =>
+        | some octets =>
+          -- `CommandBuilder` → `CommandHeaders::write` → `write_prefixed_items` (Model/RequestBuilder)
           let wide := k == "cmd16"
-          let isz := idxSize wide
-          let item := isz + fixedSize g v
-          let n := items.length / item
-          let maxc := if wide then 65535 else 255
-          if n = 0 then .bytes acc else
-          -- `write_prefixed_items`: variation, qualifier, skipped count, then per item: write, `count.increment()`
-          let base := acc.length + 3 + isz
-          if base > cap then .badwrite else
-          let fit := (cap - base) / item
-          if fit < n ∧ (n ≤ maxc ∨ fit ≤ maxc) then .badwrite
-          else if n > maxc then .panic
-          else .bytes (acc ++ [g, v, if wide then Dnp3.Gen.App.qCountAndPrefix16 else Dnp3.Gen.App.qCountAndPrefix8] ++ leIdx wide n ++ items)
+          let items : List CmdItem := (chunks (idxSize wide + fixedSize g v) octets).filterMap fun c =>
+            (readIdx wide c).map fun (i, val) => (i, val)
+          match writeCommands cap acc g v wide items with
+          | some b => .bytes b
+          | none => .badwrite
       else .badspec
     | _, _ => .badspec
   | ["cr"] => fits [80, 1, Dnp3.Gen.App.qRange8, 7, 7, 0]
@@ -180,7 +175,6 @@ def buildOp (ctrl fn cap : Nat) (toks : List String) : List String :=
   match go (writeRequestHeader (Control.ofByte ctrl) fn) toks with
   | .bytes b => [s!"bytes {toHex b}"] ++ parseOp false b false
   | .badwrite => ["badwrite", "ok"]
-  | .panic => ["panic", "ok"]
   | .badspec => ["badspec", "ok"]
 
 def parseStep (u : Unit) (line : String) : Unit × List String :=
